@@ -112,6 +112,8 @@ def unary_ops():
         ('relu_', lambda t: t.clone().relu_(), lambda d: d.relu(), lambda d: d == d),
         ('nan_to_num_', lambda t: t.clone().nan_to_num_(nan=-inf, posinf=inf, neginf=-inf), lambda d: d.nan_to_num(nan=-inf, posinf=inf, neginf=-inf), ANY),
         ('nan_to_num_default', lambda t: t.clone().nan_to_num_(), lambda d: d.nan_to_num(), ANY),
+        ('nan_to_num_-zeros', lambda t: t.clone().nan_to_num_(nan=0., posinf=0., neginf=0.), lambda d: d.nan_to_num(nan=0., posinf=0., neginf=0.), ANY),
+        ('nan_to_num_-mixed', lambda t: t.clone().nan_to_num_(nan=1., posinf=0., neginf=-2.), lambda d: d.nan_to_num(nan=1., posinf=0., neginf=-2.), ANY),
         ('clamp_min', lambda t: t.clamp_min(2.), lambda d: d.clamp_min(2.), lambda d: d == d),
         ('clamp_max', lambda t: t.clamp_max(2.), lambda d: d.clamp_max(2.), lambda d: d == d),
         ('lt', lambda t: t.lt(2.), lambda d: d.lt(2.), ANY), ('le', lambda t: t.le(2.), lambda d: d.le(2.), ANY),
@@ -127,6 +129,7 @@ def unary_ops():
         ('to-bool-then-to-double', lambda t: t.add(1.7).to(torch.bool).to(torch.float64), lambda d: (d + 1.7).to(torch.bool).to(torch.float64), finite),
         ('to-float32-then-to-float64', lambda t: t.add(0.7).to(torch.float32).to(torch.float64).sub(0.5), lambda d: (d + 0.7).to(torch.float32).to(torch.float64) - 0.5, finite),
         # history: in-place operations on the results of indexing ANOTHER tensor (same default and dtype) come first
+        ('getitem-keeps-dtype', lambda t: _getitem_dtypes(t), lambda d: torch.tensor(True), ANY),
         ('getitem-after-inplace-on-other-results', lambda t: _probe_getitem(t), lambda d: d, finite),
         ('T', lambda t: t.T, lambda d: d.permute(*reversed(range(d.ndim))), ANY),
         ('t', lambda t: t.t(), lambda d: d.t() if d.ndim == 2 else d, ANY),
@@ -187,6 +190,15 @@ def _project_own(t):
     got = t.project(t.paxes, vaxes)
     want = project(t.to_dense(), t.paxes, vaxes, {})[0].clone()
     return torch.tensor(bool(got.shape == want.shape and torch.equal(got.isnan(), want.isnan()) and torch.equal(got.nan_to_num(nan=0.), want.nan_to_num(nan=0.))))
+
+
+def _getitem_dtypes(t):
+    """every full index tuple: the element keeps the tensor's dtype (float64 here), backed or not"""
+    import torch
+    idxs = list(itertools.product(*[range(n) for n in t.size()]))
+    ok = all(t[vis].physical.dtype == t.physical.dtype for vis in idxs)
+    rows_ok = all(t[i].physical.dtype == t.physical.dtype for i in range(t.size()[0])) if t.ndim else True
+    return torch.tensor(bool(ok and rows_ok))
 
 
 def _probe_getitem(t):
